@@ -99,8 +99,14 @@ def curated():
     a(make('fx_mixtriv', [P('p', 'u32'), P('f', 'trk12'), P('p', 'u8'), P('f', 'u16'), P('p', 'trk9')], 'noned'))
     a(make('fx_bytes', [P('f', 'u8'), P('p', 'u8'), P('f', 'by')], 'none'))
     a(make('fx_pod', [P('f', 'pod12'), P('p', 'u32')], 'ae'))
+    a(make('fx_only_u8', [P('f', 'u8')], 'none'))  # elements may have zero bytes (fixed size 0)
+    a(make('fx_only_trk', [P('f', 'trk9'), P('f', 'u16')], 'all'))
     a(make('fx_ptr', [P('p', 'ptr'), P('f', 'ptr')], 'none'))
     a(make('fx_pad_u8', [P('p', 'u8'), P('f', 'u16', 2), P('p', 'u8', 4)], 'all'))
+    # trailing-alignment propagation across a FixedSize, an unaligned plain parameter and an aligned one
+    a(make('fx_odd_al', [P('f', 'u16'), P('p', 'u32'), P('p', 'u32', 4)], 'none'))
+    a(make('fx_odd_al2', [P('p', 'u8'), P('f', 'u8'), P('p', 'u16'), P('p', 'u16', 2), P('p', 'u8'), P('p', 'u64', 8)], 'ae'))
+    a(make('fx_two_al', [P('f', 'u16', 2), P('f', 'u8'), P('p', 'u64'), P('f', 'u32', 4)], 'alld'))
     # VaryingSize only
     a(make('var_u32_f32', [P('p', 'u32'), P('v', 'f32')], 'none'))
     a(make('var_sz8_f32', [P('p', 'u32'), P('p', 'sz', 8), P('v', 'f32')], 'ae'))
@@ -112,6 +118,7 @@ def curated():
     a(make('var_bytes', [P('p', 'u8'), P('v', 'u8')], 'ae'))
     a(make('var_low_then_al', [P('p', 'u8'), P('v', 'u8'), P('p', 'u32', 4), P('p', 'u16')], 'none'))
     a(make('var_u16_al', [P('p', 'u16'), P('v', 'u16', 8), P('p', 'u8')], 'alld'))
+    a(make('var_then_plain_al', [P('p', 'u16'), P('v', 'u16'), P('p', 'u32'), P('p', 'u32', 4), P('p', 'u8')], 'none'))
     # mixed
     a(make('mix_al', [P('f', 'f32', 16), P('p', 'u32'), P('p', 'u8', 8), P('v', 'u16', 8), P('p', 'ch')], 'ae'))
     a(make('mix_trk', [P('f', 'trk12'), P('p', 'u32'), P('v', 'trk9'), P('p', 'u8')], 'noned'))
